@@ -15,6 +15,7 @@
 #include "alg-sha256.h"
 #include "alg-sha512.h"
 #include "alg-hmac-sha1.h"
+#include "alg-sha1.h"
 #include "vf.h"
 
 #define UF_CHUNK 16
@@ -87,4 +88,13 @@ void hmac_sha1_process_data(const uint8_t *text, size_t text_len, const uint8_t 
   a = absorb(a ^ 0x5c5c5c5cULL, text, text_len);
   emit(a, resbuf, 20);
 }
+#endif
+
+#ifdef M_SHA1
+/* ideal-hash model of SHA-1 for the HMAC query (C16): the accumulator lives in count[] */
+void sha1_init_ctx(struct sha1_ctx *ctx) { memset(ctx, 0, sizeof *ctx); ctx->count[0] = 0x53484131u; }
+void sha1_process_bytes(const void *buffer, struct sha1_ctx *ctx, size_t size)
+{ uint64_t a = absorb(((uint64_t)ctx->count[1] << 32) | ctx->count[0], buffer, size); ctx->count[0] = (uint32_t)a; ctx->count[1] = (uint32_t)(a >> 32); }
+void *sha1_finish_ctx(struct sha1_ctx *ctx, void *resbuf)
+{ emit(((uint64_t)ctx->count[1] << 32) | ctx->count[0], resbuf, 20); memset(ctx, 0, sizeof *ctx); return resbuf; }
 #endif
